@@ -117,6 +117,8 @@ class Tail:
     def updateCoupledModel(self, model):
         n = int(model.pData.n)
         pbm = self.gg.pbm
+        g = self.gg.constrainedGrowth(self.gg.grainGrowth(pbm.PSD), self.gg._z)
+        self.pinned = getattr(self, "pinned", 0) + (0 if np.any(g) else 1)
         self.rows.append({"n": n, "strength_len": [len(self.sm.rss), len(self.sm.ls), len(self.sm.solidStrength)],
                           "clock": cmp3(float(self.gg.time[-1]), float(model.pData.time[n]), rtol=1e-9),
                           "m3": cmp3(float(pbm.ThirdMoment()), 1.0, rtol=1e-9),
@@ -130,9 +132,10 @@ def coupled_run(cfg):
     sm.setCoherencyParameters(0.01)
     sm.setInterfacialParameters(0.2)
     sm.setSolidSolutionStrength({"B": 1e8}, 1)
-    gg = GrainGrowthModel(1e-7, 1e-5, solverType=SolverType.EXPLICITEULER if cfg.get("gg_iter", "euler") == "euler" else SolverType.RK4)
+    lo, hi, mean = cfg.get("gg_grid", (1e-7, 1e-5, 2e-6))
+    gg = GrainGrowthModel(lo, hi, solverType=SolverType.EXPLICITEULER if cfg.get("gg_iter", "euler") == "euler" else SolverType.RK4)
     rng = np.random.RandomState(1)
-    gg.LoadDistribution(rng.lognormal(mean=np.log(2e-6), sigma=0.3, size=4000))
+    gg.LoadDistribution(rng.lognormal(mean=np.log(mean), sigma=0.3, size=4000))
     if cfg.get("no_pinning"):
         gg.setZenerParameters(1, 1e30)
     m.addCouplingModel(sm)
@@ -169,4 +172,4 @@ def coupled_run(cfg):
         ev.append({"e": "cmp", "name": "precStrength-zero-before-precipitation", "c": "eq" if ps[0] == 0 else "gt"})
     if err:
         ev.append({"e": "exception", "msg": err})
-    return ev, {"steps": len(tail.rows), "error": err}
+    return ev, {"steps": len(tail.rows), "error": err, "fully_pinned_steps": getattr(tail, "pinned", 0)}
